@@ -69,4 +69,71 @@ theorem int_beq_natCast (a b : Nat) : ((a : Int) == (b : Int)) = (a == b) := by
   rw [Bool.eq_iff_iff, beq_iff_eq, beq_iff_eq]
   omega
 
+/-! ### `FieldDataSequence.__iter__`: the `while` loop against `iterLoop` -/
+
+/-- the source object (`_PVDSequenceSource` / `_XDMFSequenceSource`): number of steps and cursor -/
+def srcV (s : Src) : Val := .record [("n", .int s.n), ("cur", .int s.cur)]
+
+/-- a `FieldDataSequence` object -/
+def seqSelfV (s : Src) : Val := .record [("_source", srcV s)]
+
+/-- ASSUMPTIONS about the stateful externals of `__iter__`: the source's `reset / step / get` are the cursor machine of
+    FcModel/Seq.lean (each returns its result and the source afterwards; `get` beyond the end raises IndexError), and the
+    fuel handed to the `while` loop is `fuel` -/
+structure SrcExt (X : Ext) (fuel : Nat) : Prop where
+  hreset : ∀ s : Src, X ".reset!" [srcV s] = .ok (.list [.none, srcV s.reset])
+  hstep : ∀ s : Src, X ".step!" [srcV s] = .ok (.list [.bool (s.step).2, srcV (s.step).1])
+  hget : ∀ s : Src, X ".get!" [srcV s] =
+    match s.get with
+    | some i => .ok (.list [stepV i, srcV s])
+    | none => .raise "IndexError"
+  hfuel : X "while-fuel" [] = .ok (.int fuel)
+
+/-- all items of an iteration, if no `get` raised -/
+def allSome : List (Option Nat) → Option (List Nat)
+  | [] => some []
+  | none :: _ => none
+  | some i :: r => (allSome r).map (i :: ·)
+
+theorem allSome_map_some (l : List Nat) : allSome (l.map some) = some l := by
+  induction l with
+  | nil => rfl
+  | cons a r ih => simp [allSome, ih]
+
+/-- simulation: a `while` loop whose condition reads the result of the last `step` and whose body yields the step the source
+    is at and steps on, run with enough fuel from a state presenting "`t` has just been stepped", performs exactly `iterLoop t` -/
+theorem whileLoop_iterLoop (cond : St → Res Bool) (body : St → Flow) (Inv : Src → St → Prop)
+    (hcond : ∀ t st, Inv t st → cond st = .ok (t.step).2)
+    (hbody : ∀ t st, Inv t st → (t.step).2 = true →
+      ∃ st', body st = .next st' ∧ Inv (t.step).1 st' ∧ st'.out = st.out ++ [stepV (t.cur + 1)]) :
+    ∀ (k : Nat) (t : Src) (st : St), Inv t st → t.n - (t.cur + 1) ≤ k →
+      ∃ (st' : St) (items : List Nat) (tf : Src), whileLoop cond body k st = .next st' ∧ (iterLoop t).1 = items.map some ∧
+        st'.out = st.out ++ items.map stepV ∧ Inv tf st' ∧ (tf.step).1 = (iterLoop t).2 := by
+  intro k
+  induction k with
+  | zero =>
+    intro t st hi hk
+    have hlt : ¬ (t.cur + 1 < t.n) := by omega
+    refine ⟨st, [], t, ?_, ?_, by simp, hi, ?_⟩
+    · simp [whileLoop, hcond t st hi, Src.step, hlt]
+    · rw [iterLoop]; simp [hlt]
+    · rw [iterLoop]; simp [hlt]
+  | succ k ih =>
+    intro t st hi hk
+    by_cases hlt : t.cur + 1 < t.n
+    · have hb : (t.step).2 = true := by simp [Src.step, hlt]
+      obtain ⟨st1, h1, hi1, ho1⟩ := hbody t st hi hb
+      have hk1 : (t.step).1.n - ((t.step).1.cur + 1) ≤ k := by simp [Src.step]; omega
+      obtain ⟨st2, items, tf, h2, hl2, ho2, hi2, hf2⟩ := ih (t.step).1 st1 hi1 hk1
+      refine ⟨st2, (t.cur + 1) :: items, tf, ?_, ?_, ?_, hi2, ?_⟩
+      · simp [whileLoop, hcond t st hi, hb, h1, h2]
+      · rw [iterLoop]; simp [hlt, Src.step, Src.get]; simpa [Src.step] using hl2
+      · rw [ho2, ho1]; simp
+      · rw [hf2]; conv => rhs; rw [iterLoop]
+        simp [hlt, Src.step]
+    · refine ⟨st, [], t, ?_, ?_, by simp, hi, ?_⟩
+      · simp [whileLoop, hcond t st hi, Src.step, hlt]
+      · rw [iterLoop]; simp [hlt]
+      · rw [iterLoop]; simp [hlt]
+
 end Fc.PyLite.C15O
